@@ -265,7 +265,7 @@ def scenario(n_clients, with_bg, answer_order, chooser, sync_timeout=2.0, timeou
             for ci, dl in sorted(deadlines.items()):
                 if now < dl <= new and seq_of(ci) is not None:
                     rec(("expire", seq_of(ci)))          # the clock passes this request's own expiry
-            if len(clock) < 40:
+            if len(clock) < 400:
               clock.append({"from": now, "to": new, "inq": [brine.load(d)[1] for d in ch.inq],
                           "blocked": {str(t): S.blocked.get(t, (None, None, ""))[2] for t in S.sem if t not in S.done}})
         S.on_clock = on_clock
@@ -463,7 +463,8 @@ def oracle13_nodeadline(ctx, case, out, n_clients):
         # or a reply never dispatched, is a different failure and must not hide behind the known finding)
         dispatched = all(i in out["seq_of"] and out["dispatch_count"].get(out["seq_of"][i]) == 1 for i in stuck)
         in_window = bool(stuck) and dispatched and not out["inq_left"] and any(bl.get(str(i)) == "poll" for i in stuck) \
-            and all(bl.get(str(i)) in ("poll", "cond-wait") for i in stuck)
+            and all(bl.get(str(i)) in ("poll", "cond-wait") for i in stuck) \
+            and any(in_f5_window(out, i) for i in stuck)          # somebody really entered through the window (see in_f5_window); the others sleep behind it
         if in_window:
             ctx.violation("waiter-without-deadline-stalls-after-reply-dispatched", case, observed={"blocked": bl, "undelivered": out["inq_left"]},
                           expected="every request completes", what="every reply was received and processed, yet a waiter with no timeout is blocked in poll() on an empty stream for ever")
@@ -502,12 +503,20 @@ def in_f5_window(out, i):
     if not rel:
         return False
     k_rel = rel[-1]
-    # i's last loop test before the dispatch found the result not ready (so it went on into serve) ...
-    tests = [k for k in range(k_disp) if ev[k][0] == "step" and ev[k][1] == i and ev[k][2] == "looptest"]
-    # ... and it entered serve's lock section (acquire attempt) after the dispatcher had read the frame
+    # the window: i tested its result (not ready yet) BEFORE the dispatch and went straight on into serve - its next own step after
+    # that test is the attempt on the receive lock, made after the dispatcher had read the frame. A thread that reaches the lock in
+    # any other way (e.g. woken from the condition and polling without looking at its result again) is NOT in the known window.
     reads = [k for k in range(k_disp) if ev[k][0] == "step" and ev[k][1] == dispatcher and ev[k][2] == "read" and len(ev[k]) > 3 and ev[k][3] == q]
-    acq = [k for k, e in enumerate(ev) if e[0] == "step" and e[1] == i and e[2] == "acquire" and reads and k > reads[-1]]
-    return bool(tests) and bool(acq)
+    if not reads:
+        return False
+    mine = [(k, e) for k, e in enumerate(ev) if e[0] == "step" and e[1] == i]
+    for idx, (k, e) in enumerate(mine):
+        if e[2] == "acquire" and k > reads[-1]:
+            if idx == 0:
+                return False
+            kp, ep = mine[idx - 1]
+            return ep[2] == "looptest" and kp < k_disp
+    return False
 
 
 def oracle14(ctx, case, out, n_clients):
